@@ -595,6 +595,11 @@ impl Schedule {
         &&& self.type_known(vehicle_type_idx)
         &&& path.len() >= 1 && all_in_net(&self.network, path) && tour_len_ok(path)
         &&& self.spawn_counter_ok(path)
+        // what the choice of the depots needs: A-index for the start depot node list; if a start depot has to be chosen:
+        // magnitude of the usage counts, C06 / C17 some start depot node has room for the type
+        &&& self.network.start_depots_ok()
+        &&& !self.network.sp_node(path[0]).sp_is_depot() ==> self.usage_counts_small(vehicle_type_idx, self.depot_usage@)
+        &&& !self.network.sp_node(path[0]).sp_is_depot() ==> self.some_depot_has_room(vehicle_type_idx, self.depot_usage@)
     }
     /// the postcondition of spawn_vehicle_for_path (text of its `ensures` in slices/spawn_vehicle.vs)
     pub open spec fn spawn_post(&self, vehicle_type_idx: VehicleTypeIdx, path: Seq<NodeIdx>, r: Result<(Schedule, VehicleIdx), String>) -> bool {
@@ -604,6 +609,18 @@ impl Schedule {
         &&& r is Ok ==> self.spawned(vehicle_type_idx, path, &r->Ok_0.0, r->Ok_0.1)
         &&& r is Ok ==> activities_kept(&self.network, path, r->Ok_0.0.tours@[r->Ok_0.1].nodes@)
         &&& r is Ok ==> self.listed(vehicle_type_idx, &r->Ok_0.0, r->Ok_0.1)
+        // C02 / C13: the start depot chosen had room, its limits hold afterwards, it is the nearest one with room; the end
+        // depot chosen is the nearest one
+        &&& r is Ok && !self.network.sp_node(path[0]).sp_is_depot()
+                ==> self.network.start_depot_nodes@.contains(r->Ok_0.0.tours@[r->Ok_0.1].nodes@[0])
+                    && self.sp_can_spawn(r->Ok_0.0.tours@[r->Ok_0.1].nodes@[0], vehicle_type_idx, self.depot_usage@)
+        &&& r is Ok && !self.network.sp_node(path[0]).sp_is_depot()
+                ==> self.depot_limits_hold(r->Ok_0.0.tours@[r->Ok_0.1].nodes@[0], vehicle_type_idx, r->Ok_0.0.depot_usage@)
+        &&& r is Ok && !self.network.sp_node(path[0]).sp_is_depot()
+                ==> self.best_start_depot(r->Ok_0.0.tours@[r->Ok_0.1].nodes@[0], vehicle_type_idx, self.network.sp_node(path[0]).sp_start_location(), self.depot_usage@)
+        &&& r is Ok && !self.network.sp_node(path[0]).sp_is_depot() && !self.network.sp_node(path[path.len() - 1]).sp_is_depot()
+                ==> self.network.nearest_end_depot(r->Ok_0.0.tours@[r->Ok_0.1].nodes@[r->Ok_0.0.tours@[r->Ok_0.1].nodes@.len() - 1],
+                        self.network.sp_node(path[path.len() - 1]).sp_end_location())
         &&& r is Ok && self.listings_match() ==> r->Ok_0.0.listings_match()
         &&& r is Ok ==> self.formations_follow(&r->Ok_0.0, r->Ok_0.1)
         &&& r is Ok ==> r->Ok_0.0.costs == self.costs + r->Ok_0.0.tours@[r->Ok_0.1].costs
@@ -663,6 +680,20 @@ pub proof fn lemma_spawn_pre_without_dummy(s: &Schedule, d: VehicleIdx, m: &Sche
         assert forall|t: Tour| depots_added(&m.network, path, t.nodes@) && tour_of_net(&m.network, &t) && t.caches_ok()
             implies -counter_bound() <= #[trigger] tour_counter(&t) <= counter_bound() by {
             assert(depots_added(&s.network, path, t.nodes@) && tour_of_net(&s.network, &t));
+        }
+    }
+    // the choice of the depots only looks at the network and the usage table: both are the same
+    assert(m.network.start_depots_ok());
+    if !m.network.sp_node(path[0]).sp_is_depot() {
+        let du = s.depot_usage@;
+        let sdn = s.network.start_depot_nodes@;
+        assert(m.depot_usage@ == du && m.network.start_depot_nodes@ == sdn);
+        assert(m.usage_counts_small(vt, du)) by {
+            assert(s.usage_counts_small(vt, du));
+        }
+        assert(m.some_depot_has_room(vt, du)) by {
+            let i = choose|i: int| 0 <= i < sdn.len() && s.sp_can_spawn(#[trigger] sdn[i], vt, du);
+            assert(m.sp_can_spawn(sdn[i], vt, du));
         }
     }
 }
